@@ -1,7 +1,7 @@
 (* run_case: the single entry point of the extracted model.  One case term in, one observation
    term out; the same function is evaluated with vm_compute for the extraction cross-check. *)
 From Coq Require Import String.
-From AvroV Require Import Base Varint Schema Bytes Names Codec Validate Rabin SingleObject Container Sink Settings Sexp.
+From AvroV Require Import Base Varint Schema Bytes Names Codec Conforms Layout Validate Rabin SingleObject Container Sink Settings Sexp.
 Local Open Scope string_scope.
 
 Definition run_fuel : nat := 300.
@@ -223,6 +223,26 @@ Definition run_case (x : sexp) : sexp :=
                                      | Accepted => L [Sym "accepted"]
                                      | Rejected _ => L [Sym "rejected"] end) outs)
       | None => obs_bad
+      end
+    else if op =? "layout" then
+      (* (layout k neg01 CFG SCHEMA VALUE) -> (ok #bytes conforms01 names-ok01) *)
+      match args with
+      | [Num k; Num neg; cx; sx; vx] =>
+        match cfg_of cx, schema_of conv_fuel sx, value_of conv_fuel vx with
+        | Some c, Some s, Some v =>
+          match resolved s with
+          | Ok nmz =>
+            match lay run_fuel (Z.to_nat k) (negb (neg =? 0)%Z) nmz None s v with
+            | Ok b => L [Sym "ok"; Hex b;
+                         Num (if conforms run_fuel c nmz None s v then 1 else 0);
+                         Num (if names_okb nmz then 1 else 0)]
+            | _ => obs_err
+            end
+          | _ => obs_err
+          end
+        | _, _, _ => obs_bad
+        end
+      | _ => obs_bad
       end
     else if op =? "rabin" then
       match args with
